@@ -7,8 +7,11 @@ package main
 import (
 	"context"
 	"crypto/tls"
+	"encoding/json"
 	"fmt"
 	"net"
+	"net/http"
+	"net/http/httptest"
 	"sort"
 	"strings"
 	"sync"
@@ -49,6 +52,8 @@ type world struct {
 	maxPorts int         // serverCfg.MaxPortsPerClient of this case (0 = unlimited)
 	quic     bool        // the peers of this case speak QUIC (control connection = a quic stream)
 	quicPort int
+	plugin   *httptest.Server // Login plugin of this case (nil: none)
+	grpAtt   map[int]bool     // attempts that are http group proxies (probed through the group table)
 	items    []string
 	outs     []outRec
 	fails    []map[string]any
@@ -61,22 +66,67 @@ type outRec struct {
 	text string
 }
 
-func newWorld(name string, maxPorts int) (*world, error) { return newWorldT(name, maxPorts, false) }
+func newWorld(name string, maxPorts int) (*world, error) {
+	return newWorldT(name, maxPorts, false, false, false)
+}
 
-func newWorldT(name string, maxPorts int, useQUIC bool) (*world, error) {
+var pluginCalls atomic.Int64
+
+const groupName, groupHost = "c12g", "c12.example.com"
+
+// loginPlugin: a server plugin for the Login operation that CHANGES the content (stamps a meta value and
+// answers unchange=false), the way a real plugin that enriches logins does; the run id comes back as it was sent
+func loginPlugin() *httptest.Server {
+	return httptest.NewServer(http.HandlerFunc(func(rw http.ResponseWriter, r *http.Request) {
+		pluginCalls.Add(1)
+		var req struct {
+			Version string         `json:"version"`
+			Op      string         `json:"op"`
+			Content map[string]any `json:"content"`
+		}
+		_ = json.NewDecoder(r.Body).Decode(&req)
+		metas, _ := req.Content["metas"].(map[string]any)
+		if metas == nil {
+			metas = map[string]any{}
+		}
+		metas["c12-plugin"] = "stamped"
+		req.Content["metas"] = metas
+		_ = json.NewEncoder(rw).Encode(map[string]any{"reject": false, "reject_reason": "", "unchange": false, "content": req.Content})
+	}))
+}
+
+func newWorldT(name string, maxPorts int, useQUIC, usePlugin, useVhost bool) (*world, error) {
 	qp := 0
 	if useQUIC {
 		qp = hx.FreeUDPPort(bindAddr)
 	}
+	var plg *httptest.Server
+	if usePlugin {
+		plg = loginPlugin()
+	}
 	s, err := hx.StartServer(bindAddr, func(c *v1.ServerConfig) {
 		c.MaxPortsPerClient = int64(maxPorts)
 		c.QUICBindPort = qp
+		if plg != nil {
+			c.HTTPPlugins = []v1.HTTPPluginOptions{{Name: "c12-login", Addr: strings.TrimPrefix(plg.URL, "http://"), Path: "/handler", Ops: []string{"Login"}}}
+		}
+		if useVhost {
+			c.VhostHTTPPort = hx.FreePort(bindAddr)
+		}
 	})
 	if err != nil {
+		if plg != nil {
+			plg.Close()
+		}
 		return nil, err
 	}
 	return &world{s: s, stored: map[int]int{}, kinds: map[string]int{}, caseName: name, maxPorts: maxPorts, stcpCur: map[int]int{},
-		quic: useQUIC, quicPort: qp}, nil
+		quic: useQUIC, quicPort: qp, plugin: plg, grpAtt: map[int]bool{}}, nil
+}
+
+// groupMember: does the http load-balancing group still have a member (memberships are keyed by proxy NAME)?
+func (w *world) groupMember() bool {
+	return w.s.Svc.VerifResourceController().HTTPGroupCtl.VerifC13Table()[groupName] > 0
 }
 
 // quicLogin: the scripted login of hx.Server.Login over a QUIC stream (what frpc does with transport.protocol = "quic")
@@ -157,6 +207,9 @@ func (w *world) close() {
 		}
 	}
 	w.s.Close()
+	if w.plugin != nil {
+		w.plugin.Close()
+	}
 }
 
 func (w *world) item(s string) { w.items = append(w.items, s) }
@@ -232,7 +285,7 @@ func (w *world) observe() {
 	for att, port := range w.ports {
 		if n := w.stcpName[att]; n >= 0 {
 			// visitor listeners are keyed by name: only the newest successful attempt under a name is probed
-			if cur, ok := w.stcpCur[n]; ok && cur == att && w.stcpListening(n) {
+			if cur, ok := w.stcpCur[n]; ok && cur == att && ((w.grpAtt[att] && w.groupMember()) || (!w.grpAtt[att] && w.stcpListening(n))) {
 				bound = append(bound, fmt.Sprint(att))
 			}
 			continue
@@ -617,6 +670,7 @@ type directed struct {
 	variant, quota int
 	stcp           bool
 	quic           bool
+	plugin         bool
 }
 
 var directedCases = func() []directed {
@@ -624,12 +678,14 @@ var directedCases = func() []directed {
 	for v := 0; v < 3; v++ {
 		for _, q := range []int{0, 3} {
 			for _, st := range []bool{false, true} {
-				l = append(l, directed{v, q, st, false})
+				l = append(l, directed{v, q, st, false, false})
 			}
 		}
 	}
 	// the same over QUIC control connections: the former owner disconnects / is replaced
-	l = append(l, directed{1, 0, false, true}, directed{2, 0, false, true})
+	l = append(l, directed{1, 0, false, true, false}, directed{2, 0, false, true, false})
+	// behind a Login plugin that rewrites the content (unchange=false): a re-login with the run id must still replace
+	l = append(l, directed{2, 0, false, false, true}, directed{2, 3, true, false, true})
 	return l
 }()
 
@@ -761,7 +817,7 @@ func runSessions(cfg *hx.RunCfg) error {
 	kinds := map[string]int{}
 	distinct := map[string]bool{}
 	var samples []string
-	nSched := 4 * len(schedules)
+	nSched := 3 * len(schedules)
 	if cfg.Tier != "quick" {
 		nSched = 20 * len(schedules)
 	}
@@ -781,7 +837,7 @@ func runSessions(cfg *hx.RunCfg) error {
 		} else if !gated && g.Intn(5) < 2 {
 			quota = 1 + g.Intn(3)
 		}
-		w, err := newWorldT(name, quota, isDirected && directedCases[di].quic)
+		w, err := newWorldT(name, quota, isDirected && directedCases[di].quic, isDirected && directedCases[di].plugin, gated)
 		if err != nil {
 			return err
 		}
@@ -815,6 +871,10 @@ func runSessions(cfg *hx.RunCfg) error {
 			"case": "managerAddStress: pm.Add(\"p\", nil) x4 concurrently; pm.Del(\"p\"); repeat"})
 	}
 	kinds["manager-add-stress-rounds"] = 3000
+	kinds["login-plugin-calls"] = int(pluginCalls.Load())
+	if pluginCalls.Load() == 0 && total > nSched+len(directedCases)-1 {
+		fails = append(fails, map[string]any{"key": "coverage:login-plugin-never-called", "what": "the Login plugin of the plugin cases was never consulted", "case": "directed plugin cases"})
+	}
 	cf := &hx.CaseFile{
 		Imports: "From FRP Require Import Corr.C12.\nOpen Scope N_scope.\n",
 		Typ:     "case",
